@@ -64,6 +64,8 @@ pub enum Op {
     Text,
     /// write_to() into a writer that takes at most 3 bytes per write call
     WriteToShort,
+    /// C19: write_to() into a writer that counts what it has received so far
+    WriteToStream,
 }
 
 impl Op {
@@ -376,6 +378,51 @@ impl<'a> Exec<'a> {
                     }
                 }
             }
+            Op::WriteToStream => {
+                struct Counting(Vec<u8>);
+                impl std::io::Write for Counting {
+                    fn write(&mut self, b: &[u8]) -> std::io::Result<usize> {
+                        self.0.extend_from_slice(b);
+                        PROBE.with(|p| p.set(p.get() + b.len()));
+                        Ok(b.len())
+                    }
+                    fn flush(&mut self) -> std::io::Result<()> {
+                        Ok(())
+                    }
+                }
+                let resp = self.resp.take().unwrap();
+                self.over = true;
+                PROBE.with(|p| p.set(0));
+                let mut w = Counting(Vec::new());
+                let res = guarded(|| resp.write_to(&mut w));
+                let got = std::mem::take(&mut w.0);
+                self.check_data(&got);
+                let at_pause = shared.lock().unwrap().probe_at_pause;
+                match (res, at_pause) {
+                    (Err(p), _) => {
+                        self.viol.push(("panic:terminal".into(), format!("write_to panicked: {p}")));
+                        Obs::Panic(p)
+                    }
+                    (Ok(_), Some(n)) if !asked_before => {
+                        // the moment a real client would block for ever: what had the writer received?
+                        if !self.b.frame_complete && cursor_before + n < self.b.deliverable {
+                            self.viol.push((
+                                "wait:holding-deliverable:write_to".into(),
+                                format!(
+                                    "write_to asked the transport for bytes the server has not sent while the caller's writer had received only {} of {} deliverable payload bytes ({} had been read before)",
+                                    n, self.b.deliverable - cursor_before, cursor_before
+                                ),
+                            ));
+                        }
+                        Obs::Err("pause".into())
+                    }
+                    (Ok(Ok(n)), _) => {
+                        self.check_clean_end("write_to = Ok");
+                        Obs::TermOk(n as usize)
+                    }
+                    (Ok(Err(_)), _) => Obs::Err("terminal".into()),
+                }
+            }
             Op::Bytes | Op::WriteTo | Op::TextUtf8 | Op::Text | Op::WriteToShort => {
                 let resp = self.resp.take().unwrap();
                 self.over = true;
@@ -408,7 +455,7 @@ impl<'a> Exec<'a> {
                         }
                         Op::TextUtf8 => resp.text_utf8().map(|s| s.into_bytes()),
                         Op::Text => resp.text().map(|s| s.into_bytes()),
-                        Op::Read(_) => unreachable!(),
+                        Op::Read(_) | Op::WriteToStream => unreachable!(),
                     }
                 });
                 match res {
@@ -490,7 +537,7 @@ impl<'a> Exec<'a> {
                             cursor_before
                         ),
                     ));
-                } else if cursor_before < self.b.deliverable {
+                } else if cursor_before < self.b.deliverable && op != Op::WriteToStream {
                     self.viol.push((
                         "wait:holding-deliverable".into(),
                         format!(
@@ -536,6 +583,9 @@ pub fn explore(ctx: &Ctx, case: &Case, rank: u64) -> Stats {
     let b = build(case);
     let mut st = Stats::default();
     let mut ops: Vec<Op> = case.sizes.iter().map(|&k| Op::Read(k)).collect();
+    if case.mode == Mode::C19 {
+        ops.push(Op::WriteToStream);
+    }
     if case.terminals {
         ops.extend([Op::Bytes, Op::WriteTo, Op::TextUtf8, Op::Text]);
         if case.wire.len <= 70_000 {
